@@ -100,6 +100,8 @@ type c27bEnv struct {
 	calls   []string
 	reports []string
 	ids     map[common.Hash]string // body hash -> header id
+	built   map[string]*types.Header
+	pre     map[string][]byte
 }
 
 func (e *c27bEnv) hid(h *types.Header) string {
@@ -144,7 +146,22 @@ func (r c27bRuntime) BabeSubmitReportEquivocationUnsignedExtrinsic(p types.BabeE
 	return nil
 }
 
-func c27bHeader(slot uint64, kind int, idx uint32, variant int, sealer int, tamper int) *types.Header {
+// the VRF proof and the sr25519 signature are randomised: the pre-digest and the seal of a block are
+// made once per case and reused, so that "the same block again" really is the same block
+func (e *c27bEnv) header(slot uint64, kind int, idx uint32, variant int, sealer int, tamper int) *types.Header {
+	key := fmt.Sprint(slot, kind, idx, variant, sealer, tamper)
+	src, ok := e.built[key]
+	if !ok {
+		src = c27bHeader(e, slot, kind, idx, variant, sealer, tamper)
+		e.built[key] = src
+	}
+	h := types.NewEmptyHeader() // fresh object: no cached hash, own digest slice
+	h.ParentHash, h.Number, h.StateRoot, h.ExtrinsicsRoot = src.ParentHash, src.Number, src.StateRoot, src.ExtrinsicsRoot
+	h.Digest = append(types.NewDigest(), src.Digest...)
+	return h
+}
+
+func c27bHeader(e *c27bEnv, slot uint64, kind int, idx uint32, variant int, sealer int, tamper int) *types.Header {
 	h := types.NewEmptyHeader()
 	h.Number = uint(slot%1000) + 1
 	h.ParentHash = common.Hash{7, byte(slot)}
@@ -164,13 +181,19 @@ func c27bHeader(slot uint64, kind int, idx uint32, variant int, sealer int, tamp
 	} else {
 		v = types.BabeSecondaryPlainPreDigest{AuthorityIndex: idx, SlotNumber: slot}
 	}
-	d := types.NewBabeDigest()
-	if err := d.SetValue(v); err != nil {
-		panic(err)
-	}
-	enc, err := scale.Marshal(d)
-	if err != nil {
-		panic(err)
+	pkey := fmt.Sprint("pre", slot, kind, idx)
+	enc, ok := e.pre[pkey]
+	if !ok {
+		d := types.NewBabeDigest()
+		if err := d.SetValue(v); err != nil {
+			panic(err)
+		}
+		var err error
+		enc, err = scale.Marshal(d)
+		if err != nil {
+			panic(err)
+		}
+		e.pre[pkey] = enc
 	}
 	if err := h.Digest.Add(types.PreRuntimeDigest{ConsensusEngineID: types.BabeEngineID, Data: enc}); err != nil {
 		panic(err)
@@ -262,7 +285,8 @@ func c27bRun(line string) string {
 		return "err-db"
 	}
 	defer db.Close()
-	env := &c27bEnv{db: db, inner: state.NewSlotState(db), ids: map[common.Hash]string{}}
+	env := &c27bEnv{db: db, inner: state.NewSlotState(db), ids: map[common.Hash]string{},
+		built: map[string]*types.Header{}, pre: map[string][]byte{}}
 	auths := make([]types.AuthorityRaw, 3)
 	for i := range auths {
 		auths[i] = *types.NewAuthority(c27bKey(i).Public(), 1).ToRaw()
@@ -298,7 +322,7 @@ func c27bOp(env *c27bEnv, v *verifier, op string) string {
 		x[8] > 2 {
 		return "bad-op"
 	}
-	h := c27bHeader(slot, int(kind), uint32(idx), int(variant), int(sealer), int(tamper))
+	h := env.header(slot, int(kind), uint32(idx), int(variant), int(sealer), int(tamper))
 	env.ids[c27bBodyHash(h)] = strconv.FormatUint(kind*16+idx*4+variant, 10)
 	// wall-clock slot := now   (getCurrentSlot = UnixNano / slotDuration; now*now << UnixNano)
 	v.slotDuration = time.Duration(uint64(time.Now().UnixNano()) / now)
@@ -312,7 +336,7 @@ func c27bOp(env *c27bEnv, v *verifier, op string) string {
 		verdict = "equiv"
 	case errors.Is(err, ErrBadSignature):
 		verdict = "badsig"
-	case errors.Is(err, ErrBadSlotClaim):
+	case errors.Is(err, ErrBadSlotClaim), errors.Is(err, ErrBadSecondarySlotClaim):
 		verdict = "badclaim"
 	case errors.Is(err, ErrInvalidBlockProducerIndex):
 		verdict = "badidx"
